@@ -53,6 +53,8 @@ def free_vars(e, acc=None):
     elif t == 'ucall':
         for a in e[3]:
             free_vars(a, acc)
+    elif t == 'field':
+        free_vars(e[2], acc)
     elif t == 'lsum':
         if e[1] not in acc:
             acc.append(e[1])
@@ -80,6 +82,8 @@ def uses(e, fn):
         return any(uses(a, fn) for a in e[1])
     if t == 'ucall':
         return any(uses(a, fn) for a in e[3])
+    if t == 'field':
+        return False
     if t == 'lsum':
         return uses(e[2], fn)
     if t in ('num', 'pi', 'const', 'var', 'lmax'):
@@ -122,6 +126,8 @@ def to_coq(e):
         return '(if %s then %s else %s)' % (cond_coq(e[1]), to_coq(e[2]), to_coq(e[3]))
     if t == 'tuple':
         return '(%s)' % ', '.join(to_coq(a) for a in e[1])
+    if t == 'field':
+        return '(s_%s %s)' % (e[1], to_coq(e[2]))
     if t == 'lsum':
         return '(Rlist_sum (map (fun %s_elt => %s) %s))' % (e[1], to_coq(e[2]), e[1])
     if t == 'lmax':
@@ -215,6 +221,8 @@ def evaluate(e, env, funs=None):
         return tuple(evaluate(a, env, F) for a in e[1])
     if t == 'ucall':
         return F['user:' + e[1]]([evaluate(a, env, F) for a in e[3]])
+    if t == 'field':
+        return evaluate(e[2], env, F)[e[1]]
     if t == 'lsum':
         tot = 0.0
         for x in env[e[1]]:
